@@ -16,3 +16,6 @@ func VerifNewEnqueueHandler(c *Context) EnqueueHandler { return newEnqueueHandle
 
 // VerifSchedule returns the worker's schedule (nil before Init).
 func (w *CronWorker) VerifSchedule() *cronschedule.Schedule { return w.schedule }
+
+// VerifPending returns the number of added and updated JobConfigs waiting to be flushed by the CronWorker.
+func (c *Context) VerifPending() (added, updated int) { return len(c.addedConfigs), len(c.updatedConfigs) }
